@@ -51,6 +51,27 @@ theorem comparisons_are_rational_order (a b : Dec) :
     (Dec.lt a b = true ↔ a.toRat < b.toRat) ∧ (Dec.eq a b = true ↔ a.toRat = b.toRat) ∧ (Dec.le a b = true ↔ a.toRat ≤ b.toRat) :=
   cmp_toRat a b
 
+/-- **`round(x, n)` in ℚ** (the builtin computes `quantize x (-n)`, Sq/Builtins.lean `round`): whenever it returns `r`, `r` has
+    exactly `n` fraction digits (exponent `-n`), lies within half a unit of that place of `x`, and IS `x` when `x` has no
+    more than `n` fraction digits; a value exactly half-way goes to the even neighbour -/
+theorem round_to_places_is_nearest (a r : Dec) (e : Int) (h : quantize a e = .ok r) :
+    r.exp = e ∧ |r.toRat - a.toRat| ≤ (1 / 2) * 10 ^ e ∧ (e ≤ a.exp → r.toRat = a.toRat) ∧
+    (a.coeff ≠ 0 → a.exp < e →
+      (2 * a.coeff = 2 * (r.coeff * 10 ^ (e - a.exp).toNat) + 10 ^ (e - a.exp).toNat ∨
+       2 * (r.coeff * 10 ^ (e - a.exp).toNat) = 2 * a.coeff + 10 ^ (e - a.exp).toNat) → r.coeff % 2 = 0) := by
+  obtain ⟨h1, h2, h3⟩ := quantize_half_ulp a r e h
+  refine ⟨h1, h2, h3, fun hz hlt => ?_⟩
+  rw [quantize_is_rescale a r e h]
+  exact rescale_tie_even a e hz hlt
+
+/-- **one-argument `round(x)` in ℚ**: the integer returned is within 1/2 of `x` -/
+theorem round_to_integer_is_nearest (a : Dec) : |((toIntRound a .halfEven : Int) : ℚ) - a.toRat| ≤ 1 / 2 :=
+  toIntRound_half a
+
+/-- round(2.675, 2) = 2.68 and round(2.665, 2) = 2.66 (ties to even; binary floats give 2.67 / 2.67), round(2.5) = 2 -/
+example : quantize ⟨false, 2675, -3⟩ (-2) = .ok ⟨false, 268, -2⟩ ∧ quantize ⟨false, 2665, -3⟩ (-2) = .ok ⟨false, 266, -2⟩ ∧
+    toIntRound ⟨false, 25, -1⟩ .halfEven = 2 := by decide +kernel
+
 /-- 0.1 + 0.2 denotes exactly 3/10 (the float sum does not) -/
 example : ∃ r, Dec.add ⟨false, 1, -1⟩ ⟨false, 2, -1⟩ = .ok r ∧ r.toRat = 3 / 10 := by
   refine ⟨⟨false, 3, -1⟩, by decide +kernel, ?_⟩
